@@ -1375,7 +1375,7 @@ func crashNestedKey(a *crashAbs) (string, int) {
 		if t.State != "complete" {
 			partial++
 			for _, f := range t.Present {
-				half = half || f == "meta.pb.bin"
+				half = half || (f == "meta.pb.bin" && t.State == "partial")
 			}
 		}
 	}
